@@ -739,3 +739,45 @@ Proof.
     rewrite skipn_length in Hz. lia.
 Qed.
 End Assembled.
+
+(* ---------- a terminal state is reachable for every source (one worker suffices) ---------- *)
+Section BigReach.
+Variable A : Type.
+Variable alen : A -> Z.
+Variables p threads : Z.
+Hypothesis Hp : 0 < p.
+Hypothesis Hthreads : 1 <= threads.
+
+Definition sched (cs : list A) : list bevent :=
+  flat_map (fun _ => [ERead; EQueue; ETake; ESend 0 RTrue]) cs ++ [ERead].
+
+Definition clean (s : bstate A) : Prop :=
+  b_pending s = None /\ b_queue s = [] /\ b_hold s = [] /\ b_failed s = false.
+
+Lemma big_reach : forall cs s,
+  clean s -> b_src s = cs -> wf_parts A alen p cs -> b_closed s = false ->
+  b_terminal (b_run alen p threads s (sched cs)) = true.
+Proof.
+  assert ((0 <? threads) = true) as Ht by (apply Z.ltb_lt; lia).
+  induction cs as [|c rest IH]; intros s (Hpd & Hq & Hh & Hf) Hsrc Hwf Hcl;
+    destruct s as [src pd q cl sent tot str hold ack lg fl]; cbn in Hpd, Hq, Hh, Hf, Hsrc, Hcl; subst.
+  - reflexivity.
+  - unfold sched. cbn [flat_map app]. unfold b_run. cbn [fold_left].
+    set (s4 := b_step alen p threads (b_step alen p threads (b_step alen p threads
+                 (b_step alen p threads _ ERead) EQueue) ETake) (ESend 0 RTrue)).
+    assert (clean s4 /\ b_src s4 = rest /\ b_closed s4 = (alen c <? p)) as (Hc4 & Hs4 & Hcl4).
+    { unfold s4, b_step, zlen; cbn -[Z.ltb Z.quot Z.add Z.eqb]. rewrite Ht. cbn -[Z.ltb Z.quot Z.add Z.eqb].
+      rewrite Ht. cbn -[Z.ltb Z.quot Z.add Z.eqb]. repeat split. }
+    destruct (alen c <? p) eqn:El.
+    + apply Z.ltb_lt in El. assert (rest = []) as -> by (eapply wf_parts_short_last; eauto).
+      cbn [flat_map app fold_left]. destruct Hc4 as (P1 & P2 & P3 & P4).
+      unfold b_step at 1. rewrite P4, P1, Hcl4. unfold b_terminal. rewrite Hcl4, P4, P2, P3, P1. reflexivity.
+    + apply (IH s4 Hc4 Hs4); [eapply wf_parts_tail; exact Hwf|exact Hcl4].
+Qed.
+
+Theorem big_terminal_reachable cs T0 :
+  wf_parts A alen p cs -> exists evs, b_terminal (b_run alen p threads (b_init cs T0) evs) = true.
+Proof.
+  intros Hwf. exists (sched cs). apply big_reach; auto. repeat split.
+Qed.
+End BigReach.
